@@ -544,6 +544,25 @@ static void group()
     ops_for<u128, i32>();
     prog_unary<ci::minus_op, i128>("minus");
     prog_unary<ci::minus_op, u128>("minus");
+#elif VF_PART == 13
+    // integer types that are distinct from the fixed-width aliases although they have the same width
+    // (long vs long long), and the character types
+    using ll = long long;
+    using ull = unsigned long long;
+    ops_for<i64, ll>();
+    ops_for<ll, i64>();
+    ops_for<ll, ll>();
+    ops_for<i32, ll>();
+    ops_for<ull, i64>();
+    ops_for<u64, ull>();
+    ops_for<ll, u32>();
+    ops_for<wchar_t, i32>();
+    ops_for<char16_t, char16_t>();
+    ops_for<char32_t, i32>();
+    ops_for<char16_t, u16>();
+    prog_unary<ci::minus_op, ll>("minus");
+    prog_unary<ci::minus_op, wchar_t>("minus");
+    prog_unary<ci::minus_op, char16_t>("minus");
 #elif VF_PART == 9
     conv_to<i8>();
     conv_to<u8>();
